@@ -37,7 +37,7 @@ Cases == {c \in [udp : BOOLEAN, csize : CSizes, hint : Hints, len : Lens,
                  svcroute : SvcRoutes, eon : EOns] :
             /\ (c.csize = NoV => c.ropts = "none")
             /\ Feasible(c.qlen, c.len, c.optlen, c.alay)
-            \* the 65535-octet ceiling recipe needs room for its failing push only
+            \* util::service_fn is exercised over Vec<u8> targets
             /\ (c.svcroute = "fn" => c.tgt = "vec")
             /\ (~c.udp => c.hint = NoV)}        \* no hint on stream transports
 
@@ -67,6 +67,11 @@ NegotiateLaws ==
 \* vacuity guards: truncation and non-truncation both occur
 SomeTruncated == ~(done /\ Final(Dev, Req(cs), cs.hint, Svc(cs)).tc)
 SomeUntouched == ~(done /\ cs.udp /\ ~Final(Dev, Req(cs), cs.hint, Svc(cs)).tc)
+\* ... a stream response whose last builder operation removed octets: by the
+\* service's recipe, and by the EDNS middleware stripping the OPT record
+SomeCutLast  == ~(done /\ ~cs.udp /\ cs.recipe # "plain" /\ RecipeEnd(cs.recipe, Svc(cs).len).len = Svc(cs).len)
+SomeStripped == ~(done /\ ~cs.udp /\ cs.eon /\ cs.csize = NoV /\ cs.optlen > 0
+                       /\ Final(Dev, Req(cs), cs.hint, Svc(cs)).optlen = 0)
 
 ExpFor(dv, c) ==
   LET f == Final(dv, Req(c), c.hint, Svc(c))
@@ -88,4 +93,18 @@ Emit == done => PrintT("CASE " \o ToJson(
     exp |-> ExpFor({}, cs),
     dev |-> [D_no_edns_uses_server_hint |-> ExpFor({"D_no_edns_uses_server_hint"}, cs),
              D_trunc_opt_over_limit     |-> ExpFor({"D_trunc_opt_over_limit"}, cs)]]))
+\* The same evaluations, as far as a client on the other side of a real
+\* socket can see them (and the service, of what the middleware told it); a
+\* plain request follows on the same socket / pipelined on the same
+\* connection and is answered as well ("then").
+EmitSock == done => PrintT("CASE " \o ToJson(
+   [in  |-> [kind |-> "sock", udp |-> cs.udp, edns |-> cs.csize # NoV,
+             csize |-> cs.csize, hint |-> cs.hint, qlen |-> cs.qlen,
+             len |-> cs.len, optlen |-> cs.optlen, ropts |-> cs.ropts,
+             recipe |-> cs.recipe, route |-> cs.route, alay |-> cs.alay, tgt |-> cs.tgt,
+             svcroute |-> cs.svcroute, eon |-> cs.eon],
+    exp |-> LET e == ExpFor({}, cs)
+            IN [n |-> 1, len |-> e.len, tc |-> e.tc, trunc |-> e.trunc, opt |-> e.opt,
+                good |-> TRUE, reserved |-> e.reserved, hint |-> e.hint, frame |-> e.frame,
+                then |-> "ans"]]))
 =============================================================================
